@@ -25,6 +25,31 @@ pub fn venumerate<I: Iterator>(it: I) -> (r: VEnumerate<I>)
     ensures r.decrease() is Some, r.remaining().len() == it.remaining().len(),
         forall|j: int| 0 <= j < r.remaining().len() ==> (#[trigger] r.remaining()[j]).0 == j && r.remaining()[j].1 == it.remaining()[j],
 { unimplemented!() }
+// `.iter().rev()` (rewrite `iter_rev`): the same items, last first. (vstd specifies Rev, but inside a trait method implementation the
+// verifier loses the facts about that adapter's ghost iterator; this own iterator type carries them as the contract of `vrev`.)
+#[verifier::external_body]
+#[verifier::reject_recursive_types(I)]
+pub struct VRev<I> { _p: std::marker::PhantomData<I> }
+impl<I: Iterator> Iterator for VRev<I> {
+    type Item = I::Item;
+    #[verifier::external_body]
+    fn next(&mut self) -> Option<I::Item> { unimplemented!() }
+}
+impl<I: Iterator> vstd::std_specs::iter::IteratorSpecImpl for VRev<I> {
+    open spec fn obeys_prophetic_iter_laws(&self) -> bool { true }
+    #[verifier::prophetic]
+    uninterp spec fn remaining(&self) -> Seq<I::Item>;
+    #[verifier::prophetic]
+    open spec fn will_return_none(&self) -> bool { true }
+    uninterp spec fn decrease(&self) -> Option<nat>;
+    uninterp spec fn peek(&self, i: int) -> Option<I::Item>;
+}
+#[verifier::external_body]
+pub fn vrev<I: Iterator>(it: I) -> (r: VRev<I>)
+    requires it.obeys_prophetic_iter_laws(), it.decrease() is Some,
+    ensures r.decrease() is Some, r.remaining().len() == it.remaining().len(),
+        forall|j: int| 0 <= j < r.remaining().len() ==> (#[trigger] r.remaining()[j]) == it.remaining()[it.remaining().len() - 1 - j],
+{ unimplemented!() }
 }
 // ---- `.into_iter().filter_map(f).collect()` / `.into_iter().filter(f).collect()` on a Vec (rewrites filter_map_collect /
 // filter_collect): own functions, since vstd has no specification for the adapters. Assumed std contract: if every answer of
@@ -33,6 +58,16 @@ pub mod vitc {
 use vstd::prelude::*;
 pub struct VCollected<U> { pub v: Vec<U> }
 impl<U> VCollected<U> { pub fn collect(self) -> (r: Vec<U>) ensures r == self.v { self.v } }
+// `.flatten()` between the adapter and collect(): the items of the yielded Vecs, one Vec after the other
+pub open spec fn flat_spec<T>(s: Seq<Vec<T>>) -> Seq<T>
+    decreases s.len()
+{
+    if s.len() == 0 { Seq::empty() } else { s[0]@.add(flat_spec(s.drop_first())) }
+}
+impl<T> VCollected<Vec<T>> {
+    #[verifier::external_body]
+    pub fn flatten(self) -> (r: VCollected<T>) ensures r.v@ == flat_spec(self.v@) { unimplemented!() }
+}
 pub open spec fn filter_map_spec<T, U>(s: Seq<T>, c: spec_fn(T) -> Option<U>) -> Seq<U>
     decreases s.len()
 {
@@ -46,9 +81,44 @@ pub fn vfilter_map<T, U, F: FnMut(T) -> Option<U>>(v: Vec<T>, f: F) -> (r: VColl
     requires forall|x: T| #[trigger] f.requires((x,)),
     ensures forall|c: spec_fn(T) -> Option<U>| (forall|x: T, o: Option<U>| #[trigger] f.ensures((x,), o) ==> o == c(x)) ==> r.v@ == #[trigger] filter_map_spec(v@, c),
 { unimplemented!() }
+pub open spec fn enum_map_spec<T, U>(s: Seq<T>, c: spec_fn(int, T) -> U) -> Seq<U> { Seq::new(s.len(), |i: int| c(i, s[i])) }
+#[verifier::external_body]
+pub fn venum_map<T, U, F: FnMut((usize, T)) -> U>(v: Vec<T>, f: F) -> (r: VCollected<U>)
+    requires forall|x: (usize, T)| #[trigger] f.requires((x,)),
+    ensures forall|c: spec_fn(int, T) -> U| (forall|x: (usize, T), o: U| #[trigger] f.ensures((x,), o) ==> o == c(x.0 as int, x.1)) ==> r.v@ == #[trigger] enum_map_spec(v@, c),
+{ unimplemented!() }
 #[verifier::external_body]
 pub fn vfilter<T, F: FnMut(&T) -> bool>(v: Vec<T>, f: F) -> (r: VCollected<T>)
     requires forall|x: &T| #[trigger] f.requires((x,)),
     ensures forall|c: spec_fn(T) -> bool| (forall|x: &T, o: bool| #[trigger] f.ensures((x,), o) ==> o == c(*x)) ==> r.v@ == #[trigger] v@.filter(c),
+{ unimplemented!() }
+}
+
+// ---- `map.into_iter().filter_map(f).collect::<IndexMap<_, _>>()` / `.filter(f)` on an IndexMap (rewrites entries_filter_map /
+// entries_filter / collect_indexmap): own functions over the entries in insertion order; collecting pairs into an IndexMap inserts
+// them one after the other (assumed std / indexmap contracts)
+pub mod vitm {
+use vstd::prelude::*;
+use super::jt::*;
+use super::vitc::filter_map_spec;
+pub open spec fn im_from(p: Seq<(String, JsonValue)>) -> Seq<(String, JsonValue)>
+    decreases p.len()
+{
+    if p.len() == 0 { Seq::empty() } else { im_insert(im_from(p.drop_last()), p.last().0, p.last().1) }
+}
+pub struct VPairs { pub v: Vec<(String, JsonValue)> }
+impl VPairs {
+    #[verifier::external_body]
+    pub fn collect_map(self) -> (r: IndexMap<String, JsonValue>) ensures r.entries() == im_from(self.v@) { unimplemented!() }
+}
+#[verifier::external_body]
+pub fn vfilter_map_entries<F: FnMut((String, JsonValue)) -> Option<(String, JsonValue)>>(m: IndexMap<String, JsonValue>, f: F) -> (r: VPairs)
+    requires forall|x: (String, JsonValue)| #[trigger] f.requires((x,)),
+    ensures forall|c: spec_fn((String, JsonValue)) -> Option<(String, JsonValue)>| (forall|x: (String, JsonValue), o: Option<(String, JsonValue)>| #[trigger] f.ensures((x,), o) ==> o == c(x)) ==> r.v@ == #[trigger] filter_map_spec(m.entries(), c),
+{ unimplemented!() }
+#[verifier::external_body]
+pub fn vfilter_entries<F: FnMut(&(String, JsonValue)) -> bool>(m: IndexMap<String, JsonValue>, f: F) -> (r: VPairs)
+    requires forall|x: &(String, JsonValue)| #[trigger] f.requires((x,)),
+    ensures forall|c: spec_fn((String, JsonValue)) -> bool| (forall|x: &(String, JsonValue), o: bool| #[trigger] f.ensures((x,), o) ==> o == c(*x)) ==> r.v@ == #[trigger] m.entries().filter(c),
 { unimplemented!() }
 }
